@@ -142,7 +142,8 @@ def epMapText (p : Project) (ty name : String) : String :=
 
 def statusOf (p : Project) : String :=
   let ks := (Validate.validate p).map Validate.Kind.name
-  if ks.isEmpty then "ok" else if ks.contains "panic" then "panic" else "diag"
+  if ks.isEmpty then (if Merge.projectCoherent p then "ok" else "incoherent")
+  else if ks.contains "panic" then "panic" else "diag"
 
 /-- value of the first field `key=…` after position of `ep=<name>` in the implementation's answer -/
 def implField (impl : List String) (ep key : String) : Option String :=
